@@ -28,7 +28,10 @@
     * C12_HS_filter_full / C12_HS_bucket_filter_full — the three together.
   The hypotheses (`HG.ProbHyp`, `HG.BucketHyp`) are Boolean checks on a literal grammar
   (`HG.probHyp_of_checks`, `HG.bucketHyp_of_checks`); acyclicity is needed (findings C03-F3/C03-F4).
-  Not proved: the merge half (false, C12-F1), recursive grammars, the unambiguous-grammar machine.
+  UNAMBIGUOUS-GRAMMAR MACHINE (section "unambiguous machine"): safety C12_HS_U_filter_safe; on acyclic
+  unambiguous grammars with several start symbols the filter half C12_HS_U_filter_complete,
+  C12_HS_U_filter_sorted, C12_HS_U_filter_terminates, C12_HS_U_filter_full.
+  Not proved: the merge half (false, C12-F1), recursive grammars, thresholds of the unambiguous machine.
 -/
 import PS.Model.Enum.HeapSearch
 import PS.Model.Enum.UHeapSearch
